@@ -96,11 +96,12 @@ def install(clock: SimClock | None = None) -> SimClock:
     if clock is not None:
         CLOCK = clock
     import babel.dates  # noqa: F401
+    import dateutil.parser  # noqa: F401  (its default for missing date fields is "today")
 
     for modname, mod in list(sys.modules.items()):
         if mod is None:
             continue
-        if not (modname == "babel.dates" or modname.startswith("liquid2")):
+        if not (modname == "babel.dates" or modname.startswith("liquid2") or modname.startswith("dateutil.parser")):
             continue
         d = getattr(mod, "__dict__", None)
         if d is None:
